@@ -397,7 +397,7 @@ func init() {
 		ID:         "C12",
 		Run:        runC12,
 		NonTrivial: "template_shapes",
-		Rule:       "(a) every quasiquote template with <= N nodes (N=5 quick, 6 thorough) over atoms {1 \"s\" :k x lst nil () []}, lists, vectors, one-key maps and ~e / ~@e with e in {x lst vc em (trace! lst)}; (b) seeded deep templates (splices first/middle/last/adjacent/only, in lists and vectors, literal 'unquote' inside vectors, maps holding unquote forms); results compared with the harness's template substitution; (c) seeded programs defining macros from templates (fixed and & parameters, recursive, expanding to library macros, free symbols resolved at the caller, same definition as def) compared with the reference interpreter, and for every macro call form: EVAL(call) vs EVAL(EVAL('(macroexpand call))) in identically prepared scopes (value modulo gensym names, ordered trace, head of expansion not a macro); (d) library macros cond/and/or/->/->> on effectful operands vs their documented meaning; distinct = distinct template skeletons",
+		Rule:       "(a) every quasiquote template with <= N nodes (N=5 quick, 6 thorough) over atoms {1 \"s\" :k x lst nil () []}, lists, vectors, one-key maps and ~e / ~@e with e in {x lst vc em (trace! lst)}; (b) seeded deep templates (splices first/middle/last/adjacent/only, in lists and vectors, literal 'unquote' inside vectors, maps holding unquote forms); results compared with the harness's template substitution; (c) seeded programs defining macros from templates (fixed and & parameters, recursive, expanding to library macros, free symbols resolved at the caller, same definition as def) compared with the reference interpreter, and for every macro call form: EVAL(call) vs EVAL(EVAL('(macroexpand call))) in identically prepared scopes (value modulo gensym names, ordered trace, head of expansion not a macro); (d) library macros cond/and/or/->/->> on effectful operands vs their documented meaning; distinct = distinct template skeletons; templates contain nested lists headed by the symbols quasiquote/quote/quasiquoteexpand and vectors headed by unquote/splice-unquote as data; macros: call sites evaluated repeatedly, stateful expanders, varying head macro, try bodies ending in a macro call, macroexpand as data",
 		Assume:     []string{"nested quasiquote levels and hygiene are outside the statement", "gensym-generated symbol names are compared modulo numbering"},
 		Finish: func(m *fw.Merged) {
 			m.Floor("templates", 10000)
